@@ -127,3 +127,12 @@ Proof.
   split; [apply reach_io_run; [apply rio_init; intros; cbn; lia | vm_compute; reflexivity]|].
   vm_compute. repeat split.
 Qed.
+
+(* the per-partition clamp and the commit offset of the model are the expressions regenerated from the source on this run *)
+From SZ Require Import Base.BridgeKafka.
+Theorem C09_clamp_kernel_matches_source : forall pos low high maxb reset,
+  Gen.KKafka.gen_kb_clamp pos low high maxb reset = kb_clamp pos low high maxb reset.
+Proof. exact bridge_kb_clamp. Qed.
+Theorem C09_commit_offset_matches_source : forall hi, Gen.KKafka.gen_kb_commit_offset hi = (hi + 1)%Z.
+Proof. exact bridge_kb_commit. Qed.
+Print Assumptions C09_clamp_kernel_matches_source.
